@@ -31,10 +31,10 @@ LEVEL_NOTE = ('Grids are pairwise non-degenerate by construction and the referen
 RULE = ("cases: package configurations; executions: one whole pipeline run (data file with all plants of the configuration) and one evaluation per planted source; non-trivial = "
         "distinct (configuration, planted model, A_V0, distance) with a non-identity parameter table or a multi-aperture package")
 ASSUMPTIONS = ["pairwise non-degenerate model grids (margin measured by the reference)", "photometric errors equal relative size on all bands"]
-REQUIRED_CLASSES = ['neighbouring-file-with-dotted-suffix', 'package-of-100-models', 'two-packages-under-one-relative-path', 'mode-2d', 'mode-3d', 'fmt-v1', 'fmt-v2', 'planted-at-av-range-end', 'planted-first-distance', 'planted-last-distance', 'permuted-table', 'listing-first-row', 'seds-on-different-grids', 'dead-model-in-package', 'plot-only-band-with-wrong-value', 'seds-stored-in-Jy', 'pipeline-run-twice', 'distance-range-in-pc', 'object-result-after-other-package', 'layout-changed-between-convolutions']
+REQUIRED_CLASSES = ['ignored-band-with-wrong-value', 'convolved-without-memory-mapping', 'neighbouring-file-with-dotted-suffix', 'package-of-100-models', 'two-packages-under-one-relative-path', 'mode-2d', 'mode-3d', 'fmt-v1', 'fmt-v2', 'planted-at-av-range-end', 'planted-first-distance', 'planted-last-distance', 'permuted-table', 'listing-first-row', 'seds-on-different-grids', 'dead-model-in-package', 'plot-only-band-with-wrong-value', 'seds-stored-in-Jy', 'pipeline-run-twice', 'distance-range-in-pc', 'object-result-after-other-package', 'layout-changed-between-convolutions']
 TIMEOUT = {'quick': 600, 'thorough': 3000}
 
-AXES = {'fmt': ['v1', 'v2'], 'n_ap': [3, 1], 'n_models': [4, 2, 6], 'perm': ['rotated', 'identity', 'reversed'], 'sord': ['wav-desc', 'wav-asc'], 'rel': [0.01, 0.1], 'grids': ['same', 'interior'], 'dead': [False, True], 'funit': ['mJy', 'Jy'], 'dunit': ['kpc', 'pc']}
+AXES = {'fmt': ['v1', 'v2'], 'n_ap': [3, 1], 'n_models': [4, 2, 6], 'perm': ['rotated', 'identity', 'reversed'], 'sord': ['wav-desc', 'wav-asc'], 'rel': [0.01, 0.1], 'grids': ['same', 'interior'], 'dead': [False, True], 'funit': ['mJy', 'Jy'], 'dunit': ['kpc', 'pc'], 'cmemmap': [True, False]}
 
 
 def setup(tier, seed):
@@ -86,7 +86,10 @@ def run_case(ctx, case, rec, d):
     try:
         # the filters are convolved in two separate runs; between them one SED file of a per-file package gets gzipped
         # (the format allows either), which changes the order in which the files are found
-        convolve_model_dir(pk['md'], filt[:2])
+        ckw = {} if case.get('cmemmap', True) else {'memmap': False}          # (how the convolution reads a cube is an option of the call)
+        if ckw:
+            rec.cls('convolved-without-memory-mapping')
+        convolve_model_dir(pk['md'], filt[:2], **ckw)
         if fmt == 'v1' and n_models >= 2:
             import gzip, shutil, glob as _g
             victim = sorted(_g.glob(os.path.join(pk['md'], 'seds', '*.fits')))[-1]
@@ -94,7 +97,7 @@ def run_case(ctx, case, rec, d):
                 shutil.copyfileobj(fi_, fo_)
             os.remove(victim)
             rec.cls('layout-changed-between-convolutions')
-        convolve_model_dir(pk['md'], filt[2:])
+        convolve_model_dir(pk['md'], filt[2:], **ckw)
     except Exception as e:
         from mc.runner import exc_signature
         rec.violation('pipeline|convolve|' + exc_signature(e), {'stage': 'convolve'}, {'type': type(e).__name__, 'msg': str(e)[:300]})
@@ -153,6 +156,21 @@ def run_case(ctx, case, rec, d):
                 s2 = Source.from_ascii(line)
                 plants.append({'m': m, 'a0': a0, 'jd': jd, 'sc': planted_sc, 'flux': np.asarray(s2.flux, float), 'err': np.asarray(s2.error, float), 'name': s.name, 'ia': ia, 'idd': idd, 'flags': [1, 1, 1]})
                 lines.append(line)
+                if idd == 1:
+                    # the same plant with one band ignored (flag 0) and carrying a wrong value there: with two points left it is only distinguishable in the
+                    # distance-dependent mode (the reference decides), but the sources after it in the file must be fitted as if it had not been there
+                    s0_ = Source()
+                    s0_.name = s.name + '_f0'
+                    s0_.x, s0_.y = 1.0, 2.0
+                    s0_.valid = np.array([1, 0, 1])
+                    f0_ = fl.copy()
+                    f0_[1] *= 0.04
+                    s0_.flux = f0_
+                    s0_.error = er
+                    line0 = s0_.to_ascii()
+                    t0_ = Source.from_ascii(line0)
+                    plants.append({'m': m, 'a0': a0, 'jd': jd, 'sc': planted_sc, 'flux': np.asarray(t0_.flux, float), 'err': np.asarray(t0_.error, float), 'name': s0_.name, 'ia': ia, 'idd': idd, 'flags': [1, 0, 1]})
+                    lines.append(line0)
                 if idd == 1 and mode == '3d':
                     # the same plant with one band marked plot-only (flag 9) and carrying a wrong value there: still recovered
                     s9 = Source()
@@ -270,6 +288,8 @@ def run_case(ctx, case, rec, d):
         flags = p['flags']
         if 9 in flags:
             rec.cls('plot-only-band-with-wrong-value')
+        if 0 in flags:
+            rec.cls('ignored-band-with-wrong-value')
         if mode == '3d':
             ref = fitref.fit3d(flags, p['flux'], p['err'], logm3, k, avlo, avhi)
             best_other = min(float(np.min(ref['chi2_hi'][q])) for q in range(n_models) if q != p['m']) if n_models > 1 else np.inf
